@@ -427,3 +427,28 @@ def safety_driver(tr, header, top_index, buffers):
         L.append("    ::std::free(buf); ::std::free(buf2); }")
     L.append('  ::std::printf("DONE\\n"); return 0; }')
     return "\n".join(L) + "\n"
+
+
+# ---------------------------------------------------------------------------
+# C20: Equals / TryToCopyFrom on two views over one allocation
+# ---------------------------------------------------------------------------
+def pair_driver(tr, header, top_index, cases):
+    """cases: list of (mem bytes, (o1, l1), (o2, l2)); v1 is the destination, v2 the source."""
+    base = tr.driver(header, top_index, [], [])
+    head = base[: base.index("int main() {")]
+    t = tr.types[top_index]
+    name = "::".join([tr.cpp_ns(t)] + list(t.name.canonical_name.object_path[:-1])
+                     + ["Make%sView" % t.name.canonical_name.object_path[-1]])
+    L = [head, "int main() {"]
+    for ci, (mem, (o1, l1), (o2, l2)) in enumerate(cases):
+        arr = ", ".join(str(x) for x in mem)
+        L.append("  { static const unsigned char init[] = {%s0}; const ::std::size_t n = %d;" % (arr + (", " if arr else ""), len(mem)))
+        L.append("    unsigned char *mem = static_cast<unsigned char *>(::std::malloc(n ? n : 1)); ::std::memcpy(mem, init, n);")
+        L.append("    auto v1 = %s(mem + %d, (::std::size_t)%d); auto v2 = %s(mem + %d, (::std::size_t)%d);" % (name, o1, l1, name, o2, l2))
+        L.append('    ::std::printf("P%d"); bool k1 = v1.Ok(), k2 = v2.Ok(); out(k1); out(k2);' % ci)
+        L.append("    if (k1 && k2) { out(v1.Equals(v2) ? 1 : 0); out(v2.Equals(v1) ? 1 : 0); }")
+        L.append("    bool r = v1.TryToCopyFrom(v2); out(r ? 1 : 0); for (::std::size_t i = 0; i < n; ++i) out(mem[i]);")
+        L.append("    if (r) { bool j1 = v1.Ok(), j2 = v2.Ok(); out(j1); if (j1 && j2) out(v1.Equals(v2) ? 1 : 0); }")
+        L.append('    ::std::printf("\\n"); ::std::free(mem); }')
+    L.append("  return 0; }")
+    return "\n".join(L) + "\n"
